@@ -8,7 +8,7 @@ REP = {"a": 0, "b": 1, "c": 2}
 
 def c_obs(st):
     logs = "; ".join("(%s, [%s])" % (coq_N(REP[r]), "; ".join("(%s, %s)" % (coq_N(e), coq_N(i)) for e, i in st["logs"][r])) for r in ("a", "b", "c"))
-    hws = "; ".join("(%s, (%d))" % (coq_N(REP[r]), st["hws"][r]) for r in ("a", "b", "c"))
+    hws = "; ".join("(%s, (%d))" % (coq_N(REP[r]), st["hws"][r]) for r in ("a", "b", "c") if r in st["hws"])
     view = "; ".join("(%s, (%d))" % (coq_N(REP[r]), o) for r, o in sorted(st["view"].items()))
     return "mkKObs %s %s [%s] [%s] [%s] [%s]" % (coq_N(REP[st["leader"]]), coq_N(st["epoch"]), "; ".join(coq_N(REP[r]) for r in st["isr"]), logs, hws, view)
 
@@ -29,6 +29,8 @@ def c_step(st):
         x = "KExpand %s" % coq_N(REP[st["r"]])
     elif k == "fallback":
         x = "FFallback %s" % coq_N(REP[st["r"]])
+    elif k == "expand-behind":
+        x = "FExpandBehind %s" % coq_N(REP[st["r"]])
     else:
         raise ValueError(k)
     if k == "elect" and st["r"] != "a":
@@ -39,7 +41,7 @@ def c_step(st):
 
 
 def has_fallback(c):
-    return any(s["op"] == "fallback" for s in c["steps"])
+    return any(s["op"] in ("fallback", "expand-behind") for s in c["steps"]) or c.get("scenario")
 
 
 def f_case(c):
@@ -48,7 +50,7 @@ def f_case(c):
     out = []
     for s in steps:
         t = c_step(s)
-        if s["op"] != "fallback":
+        if s["op"] not in ("fallback", "expand-behind"):
             t = "(FBase (" + t[1:].replace(", mkKObs", "), mkKObs", 1)
         out.append(t)
     return "mkFCase %d%%nat %s [\n   %s]" % (c["minisr"], coq_N(c["steps"][0]["epoch"]), ";\n   ".join(out))
@@ -65,7 +67,10 @@ def run(pid, tier, seed, replay):
     ctx.coq_cone("Properties/C02.v")
     env = {"VERIF_N": 14 if tier == "quick" else 150}
     lines = ctx.go_driver("server", ["server/srv_test.go", "server/partdrv_test.go", "server/c02_test.go"], "^TestVerifC02$", env=env, timeout=6000)
+    # the real leader's own timers (max lag time 1 s): removal of a silent replica and its re-admission by the tick
+    lines += ctx.go_driver("server", ["server/srv_test.go", "server/partdrv_test.go", "server/c02_test.go"], "^TestVerifC02ExpandByTime$", env=env, timeout=600)
     allcases = [l for l in lines if l.get("k") == "repl"]
+    scen = [l for l in lines if l.get("k") == "expand-by-time"]
     cases = [c for c in allcases if not has_fallback(c)]
     fcases = [c for c in allcases if has_fallback(c)]
     dist = {}
@@ -126,7 +131,7 @@ def run(pid, tier, seed, replay):
         if kinds.count("elect") >= 1 and "reconcile" in kinds and "fetch" in kinds:
             canon.add(json.dumps([[s["op"], s.get("r"), s.get("n")] for s in c["steps"]]))
     return ctx.finish(
-        coverage={"input_distribution": dist, "histories": len(allcases), "histories_with_truncation_fallback": len(fcases), "steps": nsteps, "case_shards": len(jobs)},
+        coverage={"input_distribution": dist, "timer_scenario": scen, "histories": len(allcases), "histories_with_truncation_fallback": len(fcases), "steps": nsteps, "case_shards": len(jobs)},
         samples=[{"id": c["id"], "steps": [{k: v for k, v in s.items() if k in ("op", "r", "n", "v", "e", "leader", "hws")} for s in c["steps"][:8]]} for c in cases[:1]],
         rule="per history a partition with replicas a (the real in-process server), b and c (played by the driver): 12-33 steps of publish at the leader, follower fetch of 1-4 entries, election of a reconciled ISR member (the real server both loses and regains leadership; as a follower it reconciles and replicates from a phantom leader through the real becomeFollower / truncateUncommitted / replication loop), reconciliation of a phantom follower against the real leader's leader-epoch-offset answer, ISR shrink and expand through Raft; minimum ISR 1 and 2; after every step all three logs (epoch, message), HWs and the leader's offset table are compared with the model, and a direct oracle checks that committed messages stay on every leader and replicas agree below their HWs; non-trivial = an election, a reconciliation and a fetch; distinct by step sequence",
         evaluations=len(allcases), distinct_nontrivial=len(canon), traces=len(allcases))
